@@ -105,6 +105,7 @@ type Engine struct {
 	clock    T // last symbolic instant (monotone clock)
 	mapOrder int
 	noMerge  bool
+	thorough bool
 	// merge regions entered from forking mode are numbered 1,2,...; see Request.MergeLimit
 	mergeLimit  int
 	mergeCount  int
